@@ -15,9 +15,9 @@ const (
 func init() {
 	register(&PropDef{
 		ID: "C04", Level: "exploration", Quick: 6000, Thorough: 20000, QuickCap: 100,
-		Rule: "the finite truth table {ifGenerationMatch: unset/0/current/other/junk} x {ifGenerationNotMatch, ifMetagenerationMatch, ifMetagenerationNotMatch: unset/current/other/junk} x object state {absent, (g,1), (g,m>1)} x operation {media, multipart, resumable upload, patch, delete, compose destination, compose per-source generation} x store = 13440 items is visited by a seeded permutation, 9 items per run on fresh object names of one world (the thorough tier consumes it completely), followed by the same draws inside random histories including a resumable upload whose object is changed by another request between initiation and completion; after every request the response is compared with the truth table and, on every non-2xx, all objects are read back and must be unchanged; distinct = hash of (store, items, shapes); non-trivial = at least one failing precondition in the run",
-		Real: []string{"gcsemu parseConds, validateConds, finishUpload, handleGcsDelete, handleGcsUpdateMetadataRequest, handleGcsCompose/finishCompose, both stores"},
-		Stub: []string{"HTTP connections (recorder)", "wall clock (simulator-owned, strictly increasing)"},
+		Rule:   "the finite truth table {ifGenerationMatch: unset/0/current/other/junk} x {ifGenerationNotMatch, ifMetagenerationMatch, ifMetagenerationNotMatch: unset/current/other/junk} x object state {absent, (g,1), (g,m>1)} x operation {media, multipart, resumable upload, patch, delete, compose destination, compose per-source generation} x store = 13440 items is visited by a seeded permutation, 9 items per run on fresh object names of one world (the thorough tier consumes it completely), followed by the same draws inside random histories including a resumable upload whose object is changed by another request between initiation and completion; after every request the response is compared with the truth table and, on every non-2xx, all objects are read back and must be unchanged; distinct = hash of (store, items, shapes); non-trivial = at least one failing precondition in the run",
+		Real:   []string{"gcsemu parseConds, validateConds, finishUpload, handleGcsDelete, handleGcsUpdateMetadataRequest, handleGcsCompose/finishCompose, both stores"},
+		Stub:   []string{"HTTP connections (recorder)", "wall clock (simulator-owned, strictly increasing)"},
 		Assume: []string{"ifGenerationNotMatch / ifMetagenerationMatch / ifMetagenerationNotMatch are never sent with the value 0 (unspecified)", "for an absent object a failing request may answer 412, or 304 when a not-match condition was supplied; delete/patch of an absent object may also answer 404"},
 		Run:    runC04,
 		Subspaces: func() map[string]int {
